@@ -3,6 +3,7 @@ package checks
 import (
 	"fmt"
 	"os"
+	"regexp"
 	"strings"
 	"testing"
 
@@ -11,6 +12,8 @@ import (
 	"verif/harness/proto"
 	"verif/harness/rig"
 )
+
+var c01ArgHint = regexp.MustCompile(`\(arg: -?(\d{1,9})`)
 
 // C01 — Readline never crashes, spins or deadlocks on any keyboard input.
 
@@ -144,7 +147,17 @@ func runC01(h *Harness, child *rig.Child, c *C01Case, obs *c01Obs) *Failure {
 		s.Finish()
 	}()
 
+	lastArg := 0 // numeric argument shown by the hint at the last wait of the main loop
+
 	note := func(st *rig.Stop) {
+		if st.Kind == "park" && st.Ev != nil && st.Ev.Kind == "main" {
+			lastArg = 0
+
+			if m := c01ArgHint.FindStringSubmatch(st.Ev.Hint); m != nil {
+				fmt.Sscan(m[1], &lastArg)
+			}
+		}
+
 		if os.Getenv("VERIF_TRACE") != "" {
 			names := []string{}
 			for _, ev := range st.Cmds {
@@ -244,10 +257,31 @@ func runC01(h *Harness, child *rig.Child, c *C01Case, obs *c01Obs) *Failure {
 
 			if c.Persist {
 				// the terminal stays dead: every further read fails the same way
-				n := 0
+				// A command may legitimately read once per repetition of its numeric
+				// argument: the bound is above any argument the script can have typed.
+				n, limit, maxArg := 0, 1000, lastArg
+
+				if maxArg > 9999999 {
+					maxArg = 9999999
+				}
+
+				if 2*maxArg+100 > limit {
+					limit = 2*maxArg + 100
+				}
+
+				// beyond what the harness can afford to wait for, the case decides nothing
+				inconclusive := limit > 12000
+				if inconclusive {
+					limit = 12000
+				}
+
 				for st.Kind == "park" {
 					n++
-					if n > 12000 {
+					if n > limit && inconclusive {
+						return &Failure{Clause: "discard", Msg: fmt.Sprintf("numeric argument %d: more failing reads than the harness waits for", maxArg)}
+					}
+
+					if n > limit {
 						stack := rig.LibraryStack(child.Stacks())
 						return failf("spin", "spin:persistent-"+step.Fault+":"+hangSite(stack), "after a persistent %s the call neither returned nor stopped reading: %d further reads were each answered with the same fault and followed by another read (%s); last park %s\n%s",
 							step.Fault, n, ctx(i), st, head(stack, 2500))
